@@ -8,7 +8,7 @@ namespace Vector {
 namespace BLF {
 
 AfdxBusStatistic::AfdxBusStatistic() :
-    ObjectHeader(ObjectType::A429_BUS_STATISTIC) {
+    ObjectHeader(ObjectType::AFDX_BUS_STATISTIC) {
 }
 
 void AfdxBusStatistic::read(AbstractFile & is) {
